@@ -194,6 +194,7 @@ func (e *Exec) intrinsic(st *State, fr *Frame, ci *callInfo) (Value, bool, bool)
 		return Value{T: a[0].T, L: []Term{r2}}, true, false
 	case "context.WithValue":
 		used()
+		e.publish(st, a[2])
 		c := e.alloc(st, "ctx")
 		k, ok := e.ctxKey(st, a[1])
 		parent := a[0].L[1]
